@@ -5,7 +5,7 @@ from harness import core, aclhist
 
 PROP = "C04"
 TRACE_MODULES = ["Trace_Acl"]
-WEIGHTS = dict(DeleteShadow=8, Shading=3, ShadowOf=2, Group=1, Ungroup=1, Resequence=1, SetPlatform=1, Reverse=1)
+WEIGHTS = dict(DeleteShadow=8, Shading=3, ShadowOf=2, EditMembers=3, Group=1, Ungroup=1, Resequence=1, SetPlatform=1, Reverse=1)
 
 
 def run(tier, seed):
